@@ -224,6 +224,7 @@ macro_rules! harnesses {
 }
 
 pub mod util;
+pub mod shims;
 
 #[cfg(feature = "c01")] pub mod c01;
 #[cfg(feature = "c02")] pub mod c02;
